@@ -193,7 +193,8 @@ class FST:
                 continue
             seen_by_state[current_state].append((remaining, generated))
             if len(remaining) == 0 and current_state in self._final_states:
-                yield generated
+                # The search goes on from this list, the caller gets a copy
+                yield list(generated)
             # We try to read an input
             if len(remaining) != 0:
                 for next_state, output_string in self._delta.get(
